@@ -293,11 +293,18 @@ impl Font {
             FontData::CIDFontType0(ref cid) | FontData::CIDFontType2(ref cid) => {
                 let mut widths = Widths::new(cid.default_width);
                 let mut iter = cid.widths.iter();
+                // character identifiers are 16 bit numbers
+                fn check_cid(cid: usize) -> Result<usize> {
+                    if cid > 0xffff {
+                        bail!("CID {} in W array out of range", cid);
+                    }
+                    Ok(cid)
+                }
                 while let Some(p) = iter.next() {
-                    let c1 = p.as_usize()?;
+                    let c1 = check_cid(p.as_usize()?)?;
                     match iter.next() {
                         Some(Primitive::Array(array)) => {
-                            widths.ensure_cid(c1 + array.len() - 1);
+                            widths.ensure_cid(check_cid((c1 + array.len()).saturating_sub(1))?);
                             for (i, w) in array.iter().enumerate() {
                                 widths.set(c1 + i, w.as_number()?);
                             }
@@ -305,7 +312,7 @@ impl Font {
                         Some(&Primitive::Reference(r)) => {
                             match resolve.resolve(r)? {
                                 Primitive::Array(array) => {
-                                    widths.ensure_cid(c1 + array.len() - 1);
+                                    widths.ensure_cid(check_cid((c1 + array.len()).saturating_sub(1))?);
                                     for (i, w) in array.iter().enumerate() {
                                         widths.set(c1 + i, w.as_number()?);
                                     }
@@ -315,7 +322,11 @@ impl Font {
                         }
                         Some(&Primitive::Integer(c2)) => {
                             let w = try_opt!(iter.next()).as_number()?;
-                            for c in c1 ..= (c2 as usize) {
+                            if c2 < 0 {
+                                bail!("negative CID in W array");
+                            }
+                            let c2 = check_cid(c2 as usize)?;
+                            for c in c1 ..= c2 {
                                 widths.set(c, w);
                             }
                         },
